@@ -13,6 +13,7 @@ at t0 + k*interval, none after cancel; timer devices: ticks only while running, 
 exactly when the count reaches the end value; a stopped mode's delays never fire.
 """
 import json
+import os
 from functools import partial
 
 from harness.common import leanproc, mpfleak
@@ -563,9 +564,10 @@ def timer_event(action, value):
     return "t1_%s%s" % (action, "" if value is None else "_%d" % value)
 
 
-def control_events_yaml():
+def control_events_yaml(order=None):
     out = []
-    for a, v in TIMER_ACTIONS:
+    acts = TIMER_ACTIONS if order is None else [TIMER_ACTIONS[i] for i in order]
+    for a, v in acts:
         out.append("      - action: %s\n        event: %s\n" % (a, timer_event(a, v)))
         if v is not None:
             val = v * TICK if a in ("pause", "set_tick_interval") else v
@@ -609,7 +611,14 @@ def gen_timer_case(r):
         else:
             ops.append(["change_tick_interval", 2])
     ops.append(["adv", r.choice([2, 5, 9])])
-    return {"kind": "timer", "cfg": cfg, "ops": ops}
+    case = {"kind": "timer", "cfg": cfg, "ops": ops}
+    if os.environ.get("VERIF_C13_CE_SHUFFLE") == "1":
+        # control events in a generated order: needs the `_setup_control_events` repair (branch verif-C13C03b), without it
+        # a value-less action listed after a value action inherits that value and `reset`/`restart` crash
+        order = list(range(len(TIMER_ACTIONS)))
+        r.shuffle(order)
+        case["ce_order"] = order
+    return case
 
 
 _tw = {}
@@ -681,7 +690,7 @@ class TimerRun:
                           "direction": c["direction"], "iv": "%dms" % (c["iv"] * 125),
                           "maxv": ("max_value: %d" % c["max"]) if c["max"] is not None else "console_log: none",
                           "roc": "true" if c["roc"] else "false", "sr": "true" if c["sr"] else "false",
-                          "ce": control_events_yaml()}
+                          "ce": control_events_yaml(self.case.get("ce_order"))}
         self.vm = VMachine(CONFIG + MODE_CONFIG, modes={"m1": y})
         try:
             self.vm.start()
